@@ -28,17 +28,19 @@ Section Lemmas.
   Qed.
 
   Lemma run_zipapp (A B : list column) a :
-    length A = length B -> run (zipapp A B) a = run A a ++ run B a.
+    is_hold V a = false -> length A = length B -> run (zipapp A B) a = run A a ++ run B a.
   Proof.
-    intros H. destruct a as [i|i k d z]; cbn.
+    intros Hh H. destruct a as [i|i k d z|z]; cbn; [| |discriminate].
     - now apply nth_zipapp.
     - rewrite nth_zipapp by assumption. apply filter_map_app.
   Qed.
 
+  Definition no_hold (acts : list action) : Prop := Forall (fun a => is_hold V a = false) acts.
+
   Lemma conv_zipapp acts (A B : list column) :
-    length A = length B -> conv acts (zipapp A B) = zipapp (conv acts A) (conv acts B).
+    no_hold acts -> length A = length B -> conv acts (zipapp A B) = zipapp (conv acts A) (conv acts B).
   Proof.
-    intros H. unfold Model.conv. induction acts as [|a acts IH]; cbn; [reflexivity|].
+    intros Hn H. unfold Model.conv. induction Hn as [|a acts Ha _ IH]; cbn; [reflexivity|].
     now rewrite run_zipapp, IH.
   Qed.
 
@@ -48,14 +50,14 @@ Section Lemmas.
   Lemma conv_app a1 a2 (C : list column) : conv (a1 ++ a2) C = conv a1 C ++ conv a2 C.
   Proof. unfold Model.conv. apply map_app. Qed.
 
-  Lemma conv_fold_zipapp acts (Ms : list (list column)) : forall A n,
+  Lemma conv_fold_zipapp acts (Ms : list (list column)) : no_hold acts -> forall A n,
     length A = n -> Forall (fun M => length M = n) Ms ->
     conv acts (fold_left zipapp Ms A) = fold_left zipapp (map (conv acts) Ms) (conv acts A).
   Proof.
-    induction Ms as [|M Ms IH]; intros A n HA HM; cbn [fold_left map]; [reflexivity|].
+    intros Hn. induction Ms as [|M Ms IH]; intros A n HA HM; cbn [fold_left map]; [reflexivity|].
     inversion HM; subst.
     rewrite (IH _ (length A)); [|rewrite zipapp_length; lia|assumption].
-    now rewrite conv_zipapp by lia.
+    now rewrite conv_zipapp by (auto; lia).
   Qed.
 
   Lemma nth_skipn {A} (l : list A) o i dflt : nth (o + i) l dflt = nth i (skipn o l) dflt.
@@ -71,7 +73,7 @@ Section Lemmas.
   Qed.
 
   Lemma run_shift (C : list column) o a : run C (shift V o a) = run (skipn o C) a.
-  Proof. destruct a; cbn; now rewrite nth_skipn. Qed.
+  Proof. destruct a; cbn; try reflexivity; now rewrite nth_skipn. Qed.
 
   Lemma conv_shift acts (C : list column) o : conv (map (shift V o) acts) C = conv acts (skipn o C).
   Proof.
@@ -79,7 +81,7 @@ Section Lemmas.
   Qed.
 
   Lemma run_firstn (C : list column) n a : act_index V a < n -> run (firstn n C) a = run C a.
-  Proof. destruct a; cbn; intros H; now rewrite nth_firstn. Qed.
+  Proof. destruct a; cbn; intros H; try reflexivity; now rewrite nth_firstn. Qed.
 
   Lemma conv_firstn acts (C : list column) n :
     Forall (fun a => act_index V a < n) acts -> conv acts (firstn n C) = conv acts C.
